@@ -403,7 +403,11 @@ fn check_case(s: &str, w: &What, k4b: bool) -> Result<(), String> {
                 if top.col != start_col {
                     return Err(format!("start marker at cell {}, first character at cell {}", top.col, start_col));
                 }
-                if !(end_lo <= bot.col && bot.col < end_hi.max(end_lo + 1)) {
+                // a zero-width last character (combining mark, format character) has no cell of
+                // its own: the marker may then sit on the cell before it, where it is rendered
+                let zero_width_last = end_lo == end_hi;
+                let ok = (end_lo <= bot.col && bot.col < end_hi.max(end_lo + 1)) || (zero_width_last && bot.col + 1 == end_lo);
+                if !ok {
                     return Err(format!("end marker at cell {}, last character occupies {}..{}", bot.col, end_lo, end_hi));
                 }
             }
